@@ -780,7 +780,7 @@ func genLines(r *rand.Rand, types []string) (lines []string, absent bool, flavou
 func run(m *mon.M) {
 	// function level, G1
 	r := m.Rand("g1")
-	n := m.N(45000, 560000)
+	n := m.N(60000, 1500000)
 	for i := 0; i < n; i++ {
 		var c *Case
 		if i%5 == 4 {
@@ -805,7 +805,7 @@ func run(m *mon.M) {
 	}
 	// G2: arbitrary bytes and mutations of well-formed values
 	r2 := m.Rand("g2")
-	n2 := m.N(8000, 100000)
+	n2 := m.N(10000, 250000)
 	for i := 0; i < n2; i++ {
 		var lines []string
 		nl := 1
@@ -830,7 +830,7 @@ func run(m *mon.M) {
 	}
 	// API handler level
 	r3 := m.Rand("handler")
-	napi := m.N(45, 420)
+	napi := m.N(60, 1000)
 	nreq := 30
 	for a := 0; a < napi; a++ {
 		d := genAPI(r3)
